@@ -105,6 +105,20 @@ def run(tier, seed):
         for k2 in (16, 24, 28, 32, 40, 48, 56, 60, 63, 64):
             for unit in ([0x30, 0x80], [0x30, 0x80, 0xa0, 0x80]):
                 plans.append({"id": "exp%d-%d" % (k2, len(unit)), "stage": "cresp", "layer": "ber", "faults": [{"op": "trunc", "at": 0}, {"op": "append", "bytes": unit * (k2 * 2 // len(unit))}], "uid": 1004})
+        # licensing error alerts in every combination of error code x state transition, with error blobs of every small size
+        # (even, odd, empty) and of 255 / 1 000 bytes - every length field consistent with the bytes really sent
+        def le16(x): return [x & 255, (x >> 8) & 255]
+        def le32(x): return [x & 255, (x >> 8) & 255, (x >> 16) & 255, (x >> 24) & 255]
+        for code in (1, 2, 3, 4, 6, 7, 8, 0xb, 0xc, 5, 0):
+            for tr in (1, 2, 3, 4, 0):
+                for nb in (0, 1, 2, 3, 4, 5, 8, 9, 255, 1000):
+                    for btype in (4, 0):
+                        if btype == 0 and nb not in (0, 3):
+                            continue
+                        blob = [(65 + i) % 256 if i % 2 == 0 else 0 for i in range(nb)]
+                        body = le32(code) + le32(tr) + le16(btype) + le16(nb) + blob
+                        pkt = le16(0x0080) + le16(0) + [0xff, 0x03] + le16(4 + len(body)) + body
+                        plans.append({"id": "lic-%d-%d-%d-%d" % (code, tr, nb, btype), "stage": "licence", "layer": "user", "faults": [{"op": "trunc", "at": 0}, {"op": "append", "bytes": pkt}], "uid": 1004})
         plans.append({"id": "selftest", "stage": "attach", "layer": "mcs", "faults": [{"op": "set8", "off": 1, "v": 1}], "uid": 1004})
         pp = os.path.join(wd, "plans.ndjson")
         with open(pp, "w") as f:
